@@ -238,15 +238,20 @@ theorem empty_noop (a : CtorArgs) (specs : List FieldSpec) (t : Tbl) (ha : a.fie
   simp only [hp, bind, Except.bind]
   rfl
 
-/-- Field-less tables. A table built without `fields` (columns `col_1 …`, or the dummy column of
-an empty table) is exactly the table built with those names as `fields`; the names are expressible.
-Hence every theorem above applies to it (with `a` carrying the names — which is how the
-constructor route has to be taken for such a table: see the report). -/
-theorem fieldless (a : CtorArgs) (ha : a.fields = Option.none) (t : Tbl) (h : mkTable a = .ok t) :
+/-- Field-less tables, what holds. A table built without `fields` and without an explicit column
+list (columns `col_1 …`, or the dummy column of an empty table) is exactly the table built with
+those automatic names passed as `fields`; the names are expressible; so every theorem above applies
+to the constructor call **that passes the automatic names**. It does *not* apply to the literal call
+`PPTable(records, fmt=str(table.fmt))` without `fields` — see `fieldless_literal_fails` below: that
+call reads every value as an attribute of the record and fails at print (known finding
+`fieldless_ctor_route`). -/
+theorem fieldless (a : CtorArgs) (ha : a.fields = Option.none)
+    (hcols : ∀ p cs, parseFmt (match a.fmt with | some s => s | Option.none => []) = .ok p → p.cols ≠ .explicit cs)
+    (t : Tbl) (h : mkTable a = .ok t) :
     mkTable { a with fields := some (specsOf t.fmt.fields) } = .ok t ∧
     (∀ sp ∈ specsOf t.fmt.fields, NameOk sp.name) ∧
     Reach { a with fields := some (specsOf t.fmt.fields) } t :=
-  have h' := mkTable_fieldless a ha t h
+  have h' := mkTable_fieldless a ha hcols t h
   ⟨h'.1, h'.2, Reach.new _ t h'.1⟩
 
 /-- The invariants behind the three theorems hold after every history: printing never depends on
@@ -294,5 +299,38 @@ example : ModOk "%d/%m/%Y".toList := by
   cases hc
   unfold isSpace
   decide
+
+/-! The literal constructor route of a field-less table (known finding `fieldless_ctor_route`):
+`PPTable([(1, 2)])` reports `col_1:1-999,col_2:1-999;*`; `PPTable([(1, 2)], fmt=<that string>)` is
+accepted by the constructor but cannot be printed (`AttributeError`: a tuple has no attribute `col_1`). -/
+
+private def fieldlessArgs : CtorArgs :=
+  { records := [[Val.int 1, Val.int 2]], fields := Option.none, fmt := Option.none, limits := Option.none,
+    header := Option.none, footer := Option.none, skip := Option.none }
+
+example : (mkTable fieldlessArgs).map (fun t => String.ofList (fmtToStr t.fmt))
+    = .ok "col_1:1-999,col_2:1-999;*" := by decide +kernel
+
+/-- the full statement fails for field-less tables: the reported string, given to the constructor as
+it is, yields a table that raises at print -/
+theorem fieldless_literal_fails :
+    (mkTable fieldlessArgs >>= fun t =>
+      mkTable { fieldlessArgs with fmt := some (fmtToStr t.fmt) } >>= render).toOption = Option.none ∧
+    (mkTable fieldlessArgs >>= fun t =>
+      mkTable { fieldlessArgs with fmt := some (fmtToStr t.fmt) }).toOption.isSome = true ∧
+    (mkTable fieldlessArgs >>= fun t => (mkTable { fieldlessArgs with fmt := some (fmtToStr t.fmt) } >>= render).map
+      (fun _ => ())) = .error .attributeError := by decide +kernel
+
+/-! The witness of the fixed defect 3b63cdc: six records, `a,b;5:5`, printed (nothing skipped), then
+`table.fmt.set_limits((1, 1))`: the flag is forgotten, the limits are in the string again. -/
+
+private def limArgs : CtorArgs :=
+  { records := (List.range 6).map fun i => [Val.int (i : Nat), Val.str "x".toList],
+    fields := some [⟨"a".toList, .dflt, .none, Option.none⟩, ⟨"b".toList, .dflt, .none, Option.none⟩],
+    fmt := some "a,b;5:5".toList, limits := Option.none, header := Option.none, footer := Option.none,
+    skip := Option.none }
+
+example : (mkTable limArgs >>= render).map (fun x => String.ofList (fmtToStr (setLimits x.1 (some 1) (some 1)).fmt))
+    = .ok "a:1-999(1),b:1-999(1);1:1" := by decide +kernel
 
 end C13
